@@ -265,9 +265,15 @@ class ManualH2Peer(simnet.H2Peer):
                 win -= pad + 1
             want = pattern(st.token or b"?", st.down)
             n = min(st.down - st.sent, win, act[3] if len(act) > 3 else rng.choice([1, 7, 1000, 16384, 1 << 24]))
-            self.conn.send_data(st.sid, want[st.sent:st.sent + n], pad_length=pad)
+            # END_STREAM may ride on the last DATA frame instead of a frame of its own (drawn only when the profile asks for it, so
+            # that stored replays keep their schedules)
+            last = cfg.get("end_with_data") and st.ended and st.sent + n == st.down and n > 0 and rng.random() < 0.6
+            self.conn.send_data(st.sid, want[st.sent:st.sent + n], pad_length=pad, end_stream=bool(last))
             st.sent += n
             st.sent_events.append(f"d{n}")
+            if last:
+                st.stage = 2
+                st.sent_events.append("e")
         elif kind == "end":
             st = self.streams[act[2]]
             self.conn.end_stream(st.sid)
@@ -740,9 +746,11 @@ async def schedule(ex, spawn, settle):
             released += 1
             p.event.set()
             progressed = True
-        elif not sc and any((not st.ended) and st.stage == 0 and not st.reset_by_client for p in ex.peers if p.alive()
+        elif not sc and any((not st.ended) and st.stage == 0 and not st.reset_by_client and no_window(p, st) for p in ex.peers if p.alive()
                             for st in p.streams.values()):
-            # fairness: a server that left a stream without any window must reopen it eventually
+            # fairness: a server that left a stream without any window (as the server itself counts it: everything it received has
+            # been credited and still the client may not send a byte) must reopen it eventually.  A client that does not use the
+            # window it has is not rescued.
             for p in ex.peers:
                 if p.alive() and not p.pending_limits and p.conn.local_settings.initial_window_size < 65535:
                     act = ("settings", p.idx, h2.settings.SettingCodes.INITIAL_WINDOW_SIZE, 65535)
@@ -779,6 +787,13 @@ async def schedule(ex, spawn, settle):
     if not stuck and not ex.inconclusive:
         await ex.pool.aclose()
         await settle()
+
+
+def no_window(p, st):
+    try:
+        return p.conn.remote_flow_control_window(st.sid) <= 0
+    except Exception:  # noqa  (stream unknown to / closed on the server)
+        return False
 
 
 def run_one(runtime, cfg, seed):
@@ -825,6 +840,8 @@ def explore(ctx, rec, pid, profile, n_quick, n_thorough, want_prefixes, runtimes
     import core
     rng = ctx.rng
     n = n_quick if ctx.quick else n_thorough
+    if ctx.broken and ctx.quick:
+        n *= 5          # a proof obligation or a tie no longer checks: this is the search for a failing input - look harder
     stored = corpus(ctx, pid)
     for i in range(len(stored) + n):
         if i < len(stored):
